@@ -15,7 +15,8 @@ LEVEL = "exploration"
 RULE = (
     "(1) Hypothesis: stream class x logical type x LookupPreset (boundary-heavy: 8, 9, 127, 128, 4095, 4096; 0 for "
     "prefixes / datatypes) x StreamParameters fields (stream names from st.text(), flags, namespace declarations) x "
-    "delimited / non-delimited x inferred or explicit flow -> header written by pyjelly -> get_options_and_frames(bytes) "
+    "delimited / non-delimited x inferred or explicit flow x optional prior use of the same options object for another "
+    "stream (then changed in place or via dataclasses.replace) -> header written by pyjelly -> get_options_and_frames(bytes) "
     "must report every field as written, and the same values must be on the wire as read by my own codec (so a symmetric "
     "encode/decode swap is caught); version == 2 iff namespace declarations. (2) exhaustive tables: 3 stream classes x 8 "
     "logical types on construction and 4 x 8 physical/logical pairs on parse (headers crafted with my codec) accepted iff "
@@ -54,7 +55,11 @@ def header_case(draw):
                        # an explicitly passed version (e.g. taken over from a parsed stream) must not override the rule
                        "version": draw(st.sampled_from([None, None, 1, 2, 7])),
                        "stream_name": draw(st.one_of(st.just(""), st.text(max_size=30), st.text(min_size=100, max_size=140)))},
-            "with_statement": draw(st.booleans())}
+            "with_statement": draw(st.booleans()),
+            "reuse": draw(st.one_of(st.none(), st.builds(
+                lambda how, ph, lt: {"how": how, "first_phys": ph, "first_logical": lt},
+                st.sampled_from(["mutate", "replace"]), st.sampled_from(["TRIPLES", "QUADS", "GRAPHS"]),
+                st.sampled_from([0, 1, 2, 3, 4, 13, 14, 114]))))}
 
 
 def body_roundtrip(case, acc):
@@ -62,7 +67,29 @@ def body_roundtrip(case, acc):
     from pyjelly.serialize.ioutils import write_delimited, write_single
 
     try:
-        stream = pyj.make_stream(case, "generic")
+        if case.get("reuse"):
+            # the options object has a history: another stream was built from it first, then the caller changed the
+            # logical type (in place or through dataclasses.replace) - SerializerOptions is a plain mutable dataclass
+            import dataclasses
+
+            from pyjelly.integrations.generic.serialize import GenericSinkTermEncoder
+
+            first = dict(case, logical=case["reuse"]["first_logical"], phys=case["reuse"]["first_phys"])
+            opts = pyj.make_options(first)
+            try:
+                pyj.stream_class(first["phys"])(encoder=GenericSinkTermEncoder(lookup_preset=opts.lookup_preset), options=opts).enroll()
+            except Exception:  # noqa: BLE001
+                pass
+            if case["reuse"]["how"] == "mutate":
+                opts.logical_type = case["logical"]
+                opts.frame_size = case["frame_size"]
+            else:
+                opts = dataclasses.replace(opts, logical_type=case["logical"], frame_size=case["frame_size"])
+            if case["flow"] is not None:
+                opts.flow = pyj.make_flow(case["flow"], case["logical"], case["frame_size"])
+            stream = pyj.stream_class(case["phys"])(encoder=GenericSinkTermEncoder(lookup_preset=opts.lookup_preset), options=opts)
+        else:
+            stream = pyj.make_stream(case, "generic")
     except Exception as exc:  # noqa: BLE001
         return Violation(f"C13:allowed-config-refused:{type(exc).__name__}", f"spec-allowed configuration refused on write: {exc!r}", case)
     stream.enroll()
